@@ -797,6 +797,11 @@ func runPkgCase(w *caseWriter, id string, d pkgDesc, st *pkgStats, extra func(w 
 		// the version-related values as written in the document, before WithDefaults splits them
 		var rawCfg nfpm.Config
 		if yaml.Unmarshal([]byte(d.YAML), &rawCfg) == nil {
+			if len(d.Env) > 0 {
+				// the document's values after the documented substitution (the standard library's, not the parser's)
+				m := func(k string) string { return d.Env[k] }
+				rawCfg.Version, rawCfg.Prerelease = os.Expand(rawCfg.Version, m), os.Expand(rawCfg.Prerelease, m)
+			}
 			w.line("raw %s %s", xs("version"), xs(rawCfg.Version))
 			w.line("raw %s %s", xs("prerelease"), xs(rawCfg.Prerelease))
 			w.line("raw %s %s", xs("version_metadata"), xs(rawCfg.VersionMetadata))
@@ -1053,6 +1058,7 @@ func cmdPkg(prop, tier string, seed int64, out, statsOut, replay string) {
 			n = n / 3
 		case "C02":
 			genC02Shapes(w, st)
+			genC02EnvShapes(w, st)
 		case "C03":
 			genC03Shapes(w, st)
 		case "C04":
